@@ -335,8 +335,8 @@ def gen_task(rng, name, max_params=5):
          "auto_shortflags": rng.random() < 0.8}
     for pn, d in params:
         r = rng.random()
-        if d["k"] in ("none", "str", "bool") and r < 0.22:
-            t["optional"].append(pn)
+        if d["k"] in ("none", "str", "bool", "int") and r < 0.22:
+            t["optional"].append(pn)            # optional value, also on an int default
         elif d["k"] in ("none", "empty") and r < 0.40:
             t["iterable"].append(pn)
             if r > 0.36:
